@@ -186,6 +186,11 @@ func (ph *ptraceHandle) handle(pid int, wstatus unix.WaitStatus) (status runner.
 			ph.traced[pid] = true
 			// Ptrace set option valid if the tracee is stopped
 			if err := setPtraceOption(pid); err != nil {
+				if err == unix.ESRCH {
+					// tracee was killed after this stop, its termination is reported by the next wait4
+					delete(ph.traced, pid)
+					return
+				}
 				status = runner.StatusRunnerError
 				errStr = err.Error()
 				return
